@@ -31,7 +31,7 @@ func checkCreate(s string, what string) bool {
 		// a returned evaluator can always be evaluated, and its tree dumped
 		o1, _, _ := evalO(ev, nil)
 		vAssert(o1 != oPanic, what+": evaluating an accepted expression on nil does not panic")
-		o2, _, _ := evalO(ev, map[string]interface{}{"a": 1, "b": "x", "c": []interface{}{1, "y"}, "d": map[string]interface{}{"e": true}})
+		o2, _, _ := evalO(ev, map[string]interface{}{"a": "1", "b": "x", "c": []interface{}{1, "y"}, "d": map[string]interface{}{"e": true}})
 		vAssert(o2 != oPanic, what+": evaluating an accepted expression on a small datum does not panic")
 		w := &discardW{}
 		ast.(grammar.Expression).ExpressionDump(w, " ", 1)
@@ -51,7 +51,7 @@ func H_C10_symbolic() {
 }
 
 var corpusC10 = []string{
-	`a == 1`, `a != "x"`, `"x" in a`, `a not in b`, `a contains 1`, `a not contains x`, `a is empty`, `a is not empty`, `a matches "^x"`, `a not matches "x"`,
+	`a == 1`, `a != "x"`, `"x" in a`, `a matches "("`, `b not matches "[a-"`, `a matches "a**"`, `a not in b`, `a contains 1`, `a not contains x`, `a is empty`, `a is not empty`, `a matches "^x"`, `a not matches "x"`,
 	`a == 1 and b == 2`, `a == 1 or b == 2`, `not a == 1`, `not not a == 1`, `(a == 1)`, `( a == 1 )`, `a.b.c == 1`, `a["b"].c == 1`, "a[`b`] == 1", `"/a/b" == 1`,
 	`any a as x { x == 1 }`, `all a as i, v { v != 1 }`, `any a as _, v { v == 1 }`, `all a as i, _ { i == 0 }`, `any "/a" as x { x.b == 1 }`,
 	`a == -1.5`, `a == 0`, `a == "\t\x41é"`, "a == `raw`", `a.0 == 1`, `a/b == 1`, `a == b.c`, `1 in a`, `-1.5 in a`, `a == "/x/y"`,
